@@ -9,7 +9,8 @@
 EXTENDS WGraph
 
 CONSTANTS NFree,     \* number of free relations in doc (2 or 3)
-          Menu       \* set of shape numbers used
+          Menu,      \* set of shape numbers the first free relation takes
+          Menu2      \* set of shape numbers the other free relations take
 
 This == [k |-> "this"]
 CU(r) == [k |-> "cu", rel |-> r]
@@ -47,6 +48,9 @@ Shape(i, s, o1, o2) ==
     [] i = 21 -> [rw |-> This, restr |-> <<Wi("user"), Us("doc", s), Wi("grp")>>]          \* public types around a self userset
     [] i = 22 -> [rw |-> This, restr |-> <<Wi("user"), Us("doc", o1), Wi("grp"), Ty("user")>>]  \* ... around a userset cycle
     [] i = 24 -> [rw |-> In(<<This, CU(o1), CU(o1)>>), restr |-> <<Ty("grp")>>]                 \* three single-edge operands (D16 when o1 has no grp)
+    [] i = 25 -> [rw |-> Di(This, CU(o1)), restr |-> <<Ty("grp"), Us("doc", o1)>>]             \* a base edge into the subtracted relation
+    [] i = 26 -> [rw |-> Un(<<This, TTU(o1, "p"), CU(o1)>>), restr |-> <<Ty("user")>>]          \* TTU and rewrite edge to one relation
+    [] i = 27 -> [rw |-> Un(<<CU(o1), This>>), restr |-> <<Us("doc", s), Us("doc", o1)>>]       \* nested tuple cycles
     [] i = 23 -> [rw |-> Un(<<TTU("a", "q"), This>>), restr |-> <<TyC("user", "c"), Ty("user"), Wi("user")>>]
 
 FreeNames == IF NFree = 2 THEN <<"x", "y">> ELSE <<"x", "y", "z">>
@@ -64,9 +68,13 @@ ModelOf(choice) ==     \* choice: function 1..NFree -> Menu
 RECURSIVE Digits(_, _)
 Digits(c, i) == IF i > NFree THEN "" ELSE ToString(c[i]) \o (IF i < NFree THEN "." ELSE "") \o Digits(c, i + 1)
 MenuSeq == SortedSeq(Menu)
+Menu2Seq == SortedSeq(Menu2)
 K == Len(MenuSeq)
+K2 == Len(Menu2Seq)
 RECURSIVE Pow(_, _)
 Pow(b, e) == IF e = 0 THEN 1 ELSE b * Pow(b, e - 1)
-ChoiceNo(i) == [j \in 1..NFree |-> MenuSeq[(((i - 1) \div Pow(K, j - 1)) % K) + 1]]
-MCInputs == [i \in 1..Pow(K, NFree) |-> [id |-> "u" \o Digits(ChoiceNo(i), 1), m |-> ModelOf(ChoiceNo(i))]]
+\* choice number i: the first free relation ranges over Menu, the others over Menu2
+ChoiceNo(i) == [j \in 1..NFree |-> IF j = 1 THEN MenuSeq[((i - 1) % K) + 1]
+                                    ELSE Menu2Seq[((((i - 1) \div K) \div Pow(K2, j - 2)) % K2) + 1]]
+MCInputs == [i \in 1..(K * Pow(K2, NFree - 1)) |-> [id |-> "u" \o Digits(ChoiceNo(i), 1), m |-> ModelOf(ChoiceNo(i))]]
 =============================================================================
